@@ -15,9 +15,7 @@ def declare(spec):
         requires=["len(self.individuals) == self.simulation.number_of_priority_classes", "self.simulation.number_of_priority_classes >= 1"],
         returns="list:Any", allocates=True, modifies=[],
         ensures=[
-            ("members-are-customers-of-a-line",
-             "forall_in(result, lambda x: is_obj(x, 'Individual') and exists_int(lambda p: 0 <= p and p < len(self.individuals) "
-             "and x in self.individuals[p], trigger=lambda p: self.individuals[p]))"),
+            ("members-are-customers", "forall_in(result, lambda x: is_obj(x, 'Individual'))"),
             ("every-customer-of-a-line-is-a-member",
              "forall_int(lambda p: implies(0 <= p and p < len(self.individuals), forall_in(self.individuals[p], lambda x: x in result)), "
              "trigger=lambda p: self.individuals[p])"),
@@ -79,7 +77,7 @@ def declare(spec):
     ens.append(("type-is-one-of-five", "result[1] is None or " + " or ".join(f"result[1] == '{k}'" for k in ORDER)))
     add(spec, "Node.decide_next_event",
         requires=["has(self, 'possible_next_events')"],
-        returns="tup2:(tup2:val,num),(opt:str)", modifies=[], allocates=True,
+        returns="tup2:(tup2:val,time),(opt:str)", modifies=[], allocates=True,
         ensures=ens, props=["C02", "C12", "C13"])
 
     # ------------------------------------------------------------------------------------------------
@@ -198,3 +196,61 @@ def declare(spec):
             ("none-iff-inf", "implies(self.next_class_change_ind is None, isinf(self.next_class_change_date))"),
         ],
         props=["C09", "C14"])
+
+    # ---- candidates for the node's next event -------------------------------------------------------------
+    PNE_MOD = ["$dict@self.possible_next_events", "$seq[Local]"]
+    add(spec, "Node.update_next_end_service_with_server",
+        requires=["has(self, 'possible_next_events')", "has_servers(self)", "'end_service' not in self.possible_next_events"],
+        modifies=PNE_MOD, allocates=True,
+        ensures=[
+            ("not-applicable-nothing-written", "implies(self.slotted or isinf(self.c), 'end_service' not in self.possible_next_events)"),
+            ("C02+C07:end-service-date-is-the-earliest-server-end-date",
+             "implies(not self.slotted and not isinf(self.c), forall_in(self.servers, lambda s: pdate(self, 'end_service') <= s.next_end_service_date))"),
+            ("C02:attained-by-a-server",
+             "implies('end_service' in self.possible_next_events, exists_in(self.servers, lambda s: s.next_end_service_date == pdate(self, 'end_service')))"),
+            ("C07:blocked-or-idle-servers-are-no-candidates",
+             "implies('end_service' in self.possible_next_events, not isinf(pdate(self, 'end_service')) and is_list(self.possible_next_events['end_service'][0]) and "
+             "forall_in(as_list(self.possible_next_events['end_service'][0], 'Any'), lambda c: exists_in(self.servers, lambda s: ref_eq(s.cust, c) "
+             "and s.next_end_service_date == pdate(self, 'end_service'))))"),
+            ("others-untouched", "forall_in(['slotted_service', 'shift_change', 'class_change', 'renege'], lambda k: ref_eq(pne(self, k), old(pne(self, k))))"),
+        ],
+        loop_invariants={0: [
+            "is_number(next_end_service_date)",
+            "forall_int(lambda j: implies(0 <= j and j < _i, next_end_service_date <= _it[j].next_end_service_date), trigger=lambda j: _it[j])",
+            "('end_service' in self.possible_next_events) == (not isinf(next_end_service_date))",
+            "implies('end_service' in self.possible_next_events, pdate(self, 'end_service') == next_end_service_date "
+            "and is_list(self.possible_next_events['end_service'][0]) and not alive_before_loop(self.possible_next_events['end_service'][0]) "
+            "and exists_int(lambda j: 0 <= j and j < _i and _it[j].next_end_service_date == next_end_service_date, trigger=lambda j: _it[j]) "
+            "and forall_in(as_list(self.possible_next_events['end_service'][0], 'Any'), lambda c: exists_int(lambda j: 0 <= j and j < _i and ref_eq(_it[j].cust, c) "
+            "and _it[j].next_end_service_date == next_end_service_date, trigger=lambda j: _it[j])))",
+            "forall_in(['slotted_service', 'shift_change', 'class_change', 'renege'], lambda k: ref_eq(pne(self, k), old(pne(self, k))))",
+        ]},
+        props=["C02", "C07"])
+
+    add(spec, "Node.update_next_end_service_without_server",
+        requires=["has(self, 'possible_next_events')", "shape(self)", "'end_service' not in self.possible_next_events"],
+        modifies=PNE_MOD, allocates=True,
+        ensures=[
+            ("not-applicable-nothing-written", "implies(not (self.slotted or isinf(self.c)), 'end_service' not in self.possible_next_events)"),
+            ("C02:no-earlier-pending-service-end",
+             "implies(self.slotted or isinf(self.c), forall_in(self.individuals, lambda q: forall_in(q, lambda i: "
+             "implies(not i.is_blocked and is_time(i.service_end_date) and i.service_end_date >= self.now, pdate(self, 'end_service') <= i.service_end_date))))"),
+            ("C02+C07:candidates-are-unblocked-customers-in-service-ending-then",
+             "implies('end_service' in self.possible_next_events, not isinf(pdate(self, 'end_service')) and pdate(self, 'end_service') >= self.now "
+             "and is_list(self.possible_next_events['end_service'][0]) and "
+             "forall_in(as_list(self.possible_next_events['end_service'][0], 'Any'), lambda c: is_obj(c, 'Individual') and not as_obj(c, 'Individual').is_blocked "
+             "and is_time(as_obj(c, 'Individual').service_end_date) and as_obj(c, 'Individual').service_end_date == pdate(self, 'end_service')))"),
+            ("others-untouched", "forall_in(['slotted_service', 'shift_change', 'class_change', 'renege'], lambda k: ref_eq(pne(self, k), old(pne(self, k))))"),
+        ],
+        loop_invariants={0: [
+            "is_time(next_end_service_date)",
+            "forall_int(lambda j: implies(0 <= j and j < _i and not _it[j].is_blocked and is_time(_it[j].service_end_date) and _it[j].service_end_date >= self.now, "
+            "next_end_service_date <= _it[j].service_end_date), trigger=lambda j: _it[j])",
+            "('end_service' in self.possible_next_events) == (not isinf(next_end_service_date))",
+            "implies('end_service' in self.possible_next_events, pdate(self, 'end_service') == next_end_service_date and next_end_service_date >= self.now "
+            "and is_list(self.possible_next_events['end_service'][0]) and not alive_before_loop(self.possible_next_events['end_service'][0]) "
+            "and forall_in(as_list(self.possible_next_events['end_service'][0], 'Any'), lambda c: is_obj(c, 'Individual') and not as_obj(c, 'Individual').is_blocked "
+            "and is_time(as_obj(c, 'Individual').service_end_date) and as_obj(c, 'Individual').service_end_date == next_end_service_date))",
+            "forall_in(['slotted_service', 'shift_change', 'class_change', 'renege'], lambda k: ref_eq(pne(self, k), old(pne(self, k))))",
+        ]},
+        props=["C02", "C07", "C12"])
